@@ -1,1 +1,24 @@
+(* C08 - line-pattern reports a block iff some line fails the regex.
+   The regex engine is an oracle (o_rx); a line passes when it is blank after
+   trimming or the oracle finds a match in the trimmed text. *)
 From BW Require Import SpecKeys.
+From BWP Require Import TextFacts Keys_proofs.
+
+Theorem C08_no_violation_iff : forall o pat idx ls,
+  lp_scan o pat idx ls = Ok None <-> Forall (lp_passes o pat) ls.
+Proof. exact lp_scan_none. Qed.
+Print Assumptions C08_no_violation_iff.
+
+(* The reported key is the trimmed text of the first failing line, with its
+   index and byte columns. *)
+Theorem C08_violation_is_first : forall o pat idx ls k,
+  lp_scan o pat idx ls = Ok (Some k) ->
+  exists pre l post, ls = pre ++ l :: post /\ Forall (lp_passes o pat) pre /\ lp_fails o pat l /\
+    k_idx k = idx + N.of_nat (length pre) /\ k_val k = trim l /\ k_a k = trim_off l + 1 /\
+    k_b k = k_a k + blen (trim l) - 1.
+Proof. exact lp_scan_some. Qed.
+Print Assumptions C08_violation_is_first.
+
+Theorem C08_at_most_one : forall o file b ds, line_pattern o file b = Ok ds -> (length ds <= 1)%nat.
+Proof. exact line_pattern_at_most_one. Qed.
+Print Assumptions C08_at_most_one.
